@@ -99,9 +99,9 @@ class Ctl:
     def subst(self, content):
         return None if content is None else content.replace(PH, self.P)
 
-    def put(self, content):
+    def put(self, content, keep_stray=False):
         for f in os.listdir(self.dir):
-            if f.startswith("ld.so.preload"):
+            if f.startswith("ld.so.preload") and not (keep_stray and f != "ld.so.preload"):
                 os.unlink(os.path.join(self.dir, f))
         if content is not None:
             with open(self.file, "wb") as f:
@@ -117,7 +117,19 @@ class Ctl:
     def stray_files(self):
         return sorted(f for f in os.listdir(self.dir) if f.startswith("ld.so.preload") and f != "ld.so.preload")
 
-    def run(self, action, timeout=20):
-        p = subprocess.run([self.ctl, action], env=self.env, stdin=subprocess.DEVNULL, stdout=subprocess.PIPE,
-                           stderr=subprocess.PIPE, timeout=timeout)
-        return p.returncode, p.stdout, p.stderr
+    def run(self, action, timeout=20, closed=()):
+        """closed: standard descriptors (0, 1, 2) the command is started WITHOUT (like `cmd >&-`)."""
+        if not closed:
+            p = subprocess.run([self.ctl, action], env=self.env, stdin=subprocess.DEVNULL, stdout=subprocess.PIPE,
+                               stderr=subprocess.PIPE, timeout=timeout)
+            return p.returncode, p.stdout, p.stderr
+
+        def pre():
+            for fd in closed:
+                try:
+                    os.close(fd)
+                except OSError:
+                    pass
+        p = subprocess.run([self.ctl, action], env=self.env, stdin=subprocess.DEVNULL, stdout=subprocess.DEVNULL,
+                           stderr=subprocess.DEVNULL, timeout=timeout, preexec_fn=pre, close_fds=True)
+        return p.returncode, b"", b""
